@@ -19,10 +19,11 @@ class Horizon(BaseException):
 
 
 class Script:
-    def __init__(self, prefix=(), horizon=None):
+    def __init__(self, prefix=(), horizon=None, default=None):
         self.prefix = list(prefix)
         self.trace = []          # (choice, arity)
         self.horizon = horizon
+        self.default = list(default or [])     # baseline schedule: the "default answer" at each point (0 beyond its end)
 
     def choose(self, n):
         n = int(n)
@@ -36,9 +37,12 @@ class Script:
             if not (0 <= c < n):
                 raise HarnessError('replay divergence at choice %d: recorded %d, arity now %d' % (i, c, n))
         else:
-            c = 0
+            c = self.default[i] if i < len(self.default) and 0 <= self.default[i] < n else 0
         self.trace.append((c, n))
         return c
+
+    def default_at(self, i):
+        return self.default[i] if i < len(self.default) else 0
 
     def choices(self):
         return [c for c, _ in self.trace]
@@ -55,7 +59,7 @@ class Exploration:
         self.bound = None
 
 
-def explore_choices(run, bound=None, cap=None, horizon=None, on_result=None, wall=None):
+def explore_choices(run, bound=None, cap=None, horizon=None, on_result=None, wall=None, baseline=None):
     """run(script) -> outcome (any; canon()-able).  on_result(script, outcome) is called per execution.
     Returns Exploration."""
     ex = Exploration()
@@ -68,7 +72,7 @@ def explore_choices(run, bound=None, cap=None, horizon=None, on_result=None, wal
         if (cap is not None and ex.executions >= cap) or (t_end is not None and ex.executions > 0 and time.time() > t_end):
             ex.complete = False
             break
-        sc = Script(prefix, horizon)
+        sc = Script(prefix, horizon, baseline)
         try:
             out = run(sc)
         except Horizon:
@@ -83,14 +87,17 @@ def explore_choices(run, bound=None, cap=None, horizon=None, on_result=None, wal
         if on_result is not None:
             on_result(sc, out)
         base = sc.choices()
-        dev = sum(1 for c in base[:len(prefix)] if c != 0)
+        # a deviation is an answer different from the baseline's (the all-zero schedule unless a baseline is given)
+        dev = sum(1 for i, c in enumerate(base[:len(prefix)]) if c != sc.default_at(i))
         if bound is not None and dev >= bound:
             continue
         # push alternatives deepest-first so that the DFS visits in lexicographic order
         for i in range(len(sc.trace) - 1, len(prefix) - 1, -1):
             n = sc.trace[i][1]
-            for alt in range(n - 1, 0, -1):
-                stack.append(base[:i] + [alt])
+            d0 = sc.default_at(i) if sc.default_at(i) < n else 0
+            for alt in range(n - 1, -1, -1):
+                if alt != d0:
+                    stack.append(base[:i] + [alt])
     return ex
 
 
